@@ -16,7 +16,7 @@ def continue_map_with_failing_items(program: list[dict]) -> bool:
         for n in g["nodes"]:
             if n["kind"] == "graph" and n.get("mapOver") and n.get("errMode") == "continue":
                 inner = program[n["inner"]]
-                if any(m.get("body", {}).get("b") in ("fail", "failIf") for m in inner["nodes"]):
+                if any(m.get("body", {}).get("b") in ("fail", "failIf", "failGe") for m in inner["nodes"]):
                     return True
     return False
 
